@@ -106,7 +106,7 @@ def _z3_worker(task):
                 except z3.Z3Exception as e:
                     log.append(("nlsat-core", "error:" + str(e)[:80], round(time.time() - t0, 3)))
             s2 = z3.Solver(ctx=ctx)
-            s2.set("timeout", int(max(1000, timeout_ms // 3)))
+            s2.set("timeout", int(max(1000, timeout_ms // 3)) if mode == "prove" else 3000)
             s2.set("random_seed", int(seed) % 1000)
             for a in asserts:
                 s2.add(a)
@@ -118,6 +118,9 @@ def _z3_worker(task):
                 model = _model_dict(s2.model())
                 if full is None:
                     return name, "sat", time.time() - t0, model, "z3-smt(qf core = full)", log
+        if mode == "cover":
+            # vacuity guard: only an unsat answer matters (core unsat => hypotheses contradictory)
+            return name, ("sat" if model is not None else "unknown"), time.time() - t0, None, "cover", log
         if full is not None:
             s3 = z3.Solver(ctx=ctx)
             s3.set("timeout", int(timeout_ms))
@@ -213,4 +216,62 @@ def discharge(tasks, timeout_ms=20000, cvc5_all=False, cvc5_timeout_s=30, seed=0
                     prev["time"] += t
             elif res == "sat" and prev["status"] == "unsat" and core[name] is None:
                 prev["disagree"] = True
+    return out
+
+
+# ---------------------------------------------------------------------------------------------
+# parallel preparation + solving: workers are forked after symbolic execution, so they inherit
+# the engine (closure registry for definitional unfolding) and the obligation list.
+
+_G = {}
+
+
+def _ob_worker(task):
+    idx, level, timeout_ms, seed, use_cvc5, cvc5_timeout_s = task
+    from . import vcprep
+
+    eng, obs = _G["eng"], _G["obs"]
+    ob = obs[idx]
+    t0 = time.time()
+    level = max(level, int((ob.meta or {}).get("level", 0)))
+    try:
+        full, core = vcprep.prepare(eng, ob, level=level)
+        has_q = len(full) != len(core)
+        smt_full = vcprep.to_smt2(full) if has_q else None
+        smt_core = vcprep.to_smt2(core)
+    except Exception as e:
+        import traceback
+
+        return idx, dict(status="error", backend="prep", time=time.time() - t0, model=None, reason=repr(e) + traceback.format_exc()[-800:], log=[], prep=time.time() - t0)
+    prep = time.time() - t0
+    mode = "prove" if ob.kind != "cover" else "cover"
+    name, res, t, model, backend, log = _z3_worker((ob.name, smt_full, smt_core, timeout_ms, seed, mode))
+    r = dict(status=res, backend=backend if res in ("unsat", "sat", "sat-core") else "z3", time=t, model=model, reason=backend, log=log, prep=prep)
+    if mode == "prove" and (res in ("unknown", "error", "sat-core") or use_cvc5 == "all") and use_cvc5:
+        cres, ct, err = run_cvc5(smt_core, cvc5_timeout_s)
+        r["cvc5"] = cres
+        r["cvc5_time"] = ct
+        if cres == "unsat" and res != "unsat":
+            r["status"] = "unsat"
+            r["backend"] = "cvc5(qf core)"
+            r["time"] += ct
+        elif cres == "sat" and res == "unsat" and not has_q:
+            r["disagree"] = True
+    if r["status"] != "unsat":
+        r["smt_full"] = smt_full
+        r["smt_core"] = smt_core
+    return idx, r
+
+
+def discharge_obligations(eng, obs, level=0, timeout_ms=20000, seed=0, cvc5="unknown", cvc5_timeout_s=30, jobs=None):
+    """prepare and solve obligations in forked workers; returns list of result dicts"""
+    _G["eng"] = eng
+    _G["obs"] = obs
+    n = jobs or int(os.environ.get("PYVC_JOBS", "15"))
+    ctx = mp.get_context("fork")
+    out = [None] * len(obs)
+    tasks = [(i, level, timeout_ms, seed, cvc5, cvc5_timeout_s) for i in range(len(obs))]
+    with ctx.Pool(min(n, max(1, len(obs)))) as p:
+        for idx, r in p.imap_unordered(_ob_worker, tasks, chunksize=1):
+            out[idx] = r
     return out
